@@ -34,6 +34,11 @@ structure PieceOK (k : KV) (t : Table) (z : Nat) : Prop where
   polys : t.polys.getD z [] = tableSpan k.v (nth k.v (t.spans.getD z 0)) (nth k.v (t.spans.getD z 0 + 1)) (t.spans.getD z 0) k.deg
   deg_le : k.deg ≤ t.spans.getD z 0
 
+theorem pieceOK_of_check (k : KV) (t : Table) (z : Nat) (h : pieceCheck k t z = true) : PieceOK k t z := by
+  simp only [pieceCheck, Bool.and_eq_true, beq_iff_eq, decide_eq_true_eq] at h
+  obtain ⟨⟨⟨⟨h1, h2⟩, h3⟩, h4⟩, h5⟩ := h
+  exact ⟨h1, h2, h3, h4, h5⟩
+
 theorem to_local (a b u : Rat) (h : a < b) : a + (-a / (b - a) + 1 / (b - a) * u) * (b - a) = u := by
   have : b - a ≠ 0 := ne_of_gt (sub_pos.mpr h)
   field_simp
